@@ -322,8 +322,9 @@ def short(scn):
                 a.append('T%s' % node['timeout'])
             if node.get('sdt', 1) != 1:
                 a.append('sdt%s' % node['sdt'])
-            if node.get('verbose'):
-                a.append('v' + ('W' if node.get('watch') else ''))
+            if node.get('verbose') or node.get('watch'):
+                a.append(('v' if node.get('verbose') else '')
+                         + ('W' if node.get('watch') else ''))
             req = ('<' + ','.join(node['req'])) if node['req'] else ''
             return '%s%s%s[%s]{%s}' % (node['name'], flags, req, ' '.join(a),
                                        ' '.join(r(n) for n in node['nodes']))
@@ -360,5 +361,6 @@ def short(scn):
         + ('' if not scn.get('late') else ' late=%s' % (scn['late'],)) \
         + ('' if not scn.get('peek') else ' peek=%s' % scn['peek']) \
         + ('' if not scn.get('build') else ' build=%s' % scn['build']) \
-        + ('' if not scn.get('rerun') else ' rerun') \
+        + ('' if not scn.get('rerun') else ' rerun' if scn['rerun'] is True
+           else ' rerun-' + str(scn['rerun'])) \
         + ('' if not scn.get('dangle') else ' dangle=%s' % (scn['dangle'],))
